@@ -11,7 +11,7 @@ desc = {
  'C06': 'consumer vectors <= 4 x RO/mutable input x 4 signals on the fan-out consumers and, same enumeration, through the connector routers; the real pipeline graph: 32 presence x 512 capability assignments of a 9-component topology x 4 signals with a path-trail oracle',
  'C07': 'programs depth 4/3 on 31 slice types, Value/Map programs depth 4 (incl. mutating RemoveIf predicates), read-only sweep with a mutable twin (mutators panic, copy OUT works), struct-level CopyTo sweep over every slice of a fully populated payload',
  'C08': '1-deviation universe (value-carrying element followed by a default one), spellings (int64 as number, enum names incl. the zero member), legacy wire form, bytes <= 3, JSON tokens <= 4; plain codecs + the four *otlp request/response wrappers',
- 'C09': 'all configurations of three pipelines over the option list (0-3 processors, a second order and 4 in C09; connector positions; router-aware connectors; 6 connector direction sets), each accepted one also with in-place mutating processors',
+ 'C09': 'all configurations of three pipelines over the option list (0-3 processors, two of them named p1 and P1: identifiers are case-sensitive, a second order and 4 in C09; connector positions; router-aware connectors; 6 connector direction sets), each accepted one also with in-place mutating processors',
  'C10': 'accepted topologies x every single failure (graph); the real service.Service: extension DAGs <= 3, 4 topologies with cross-signal shared components x every single failure x every tie-breaking of one topological sort',
  'C11': 'report sequences <= 5 / <= 4 per instance, concurrent drivers bound 2, late-attach enumeration <= 6 reports incl. repeats, the real Service with every extension a status watcher (service-watchers)',
  'C12': 'strings <= 4 tokens x2 (with/without default scheme), containers, typed provider values (incl. null, surrounding whitespace, maps containing references), merge lists <= 3',
